@@ -16,6 +16,9 @@
 (* polynomials in B with small coefficients, so exactness at 2^63, 2^64,   *)
 (* 10^34, 10^400 is checked without large integers in TLC.                 *)
 (*                                                                         *)
+(* Part "shared": integer division applied several times to one shared     *)
+(* operand B + i; every use must satisfy the defining identities.          *)
+(*                                                                         *)
 (* Part "literal": number spellings built structurally (base, digit        *)
 (* groups with _, fraction, exponent, SI/IEC multiplier) with their value  *)
 (* as mantissa * 10^e10 * 2^e2 / 10^fd.                                    *)
@@ -113,6 +116,11 @@ Init ==
     [] Part = "symbolic" ->
          /\ op \in SymOps /\ a \in {Num("int", i) : i \in -2..2} /\ b \in {Num("int", i) : i \in -2..2}
          /\ kind = "int" /\ err = FALSE /\ res = SymResult(op, a.n, b.n)
+    \* integer division on a shared operand B + i (a field referenced several times): op is the sequence of
+    \* uses, a.n = i, b.n = the small divisor; each use must satisfy the defining identities by itself
+    [] Part = "shared" ->
+         /\ op \in [1..3 -> {"div", "mod", "quo", "rem"}] /\ a \in {Num("int", i) : i \in -1..1} /\ b \in {Num("int", j) : j \in {-7, -2, 3, 7}}
+         /\ kind = "int" /\ err = FALSE /\ res = <<0, 1>>
     [] Part = "literal" ->
          /\ op = "lit" /\ a \in {l \in Lit : LitOK(l)} /\ b = Zero
          /\ kind = LitKind(a) /\ err = FALSE /\ res = LitValue(a)
